@@ -124,6 +124,7 @@ let () =
     | Some bar ->
       Hashtbl.reset tbl; Hashtbl.reset rev_tbl;
       let body = String.sub line (bar+1) (String.length line - bar - 1) in
+      let net_mode = bar > 0 && line.[0] = 'x' in   (* print the net effect of an op's Messages instead of the Messages *)
       let opl = List.filter (fun s -> s <> "") (split ';' body) in
       let w = ref (empty_world ops) in
       let nsess = ref 0 in
@@ -161,14 +162,27 @@ let () =
         (match ev with Some e -> w := world_step ops all_fixed !w e | None -> w := { !w with w_last = [] });
         let sv = w_srv ops !w in
         let b = Buffer.create 512 in
-        Buffer.add_string b (Printf.sprintf "%d %s%s M{" j code (if valid then "" else "!"));
+        Buffer.add_string b (Printf.sprintf "%d %s%s %s{" j code (if valid then "" else "!") (if net_mode then "N" else "M"));
         let firstc = ref true in
         List.iter (fun (s, ds) ->
           if ds <> [] then begin
-            if not !firstc then Buffer.add_char b ' ';
-            firstc := false;
-            Buffer.add_string b (Printf.sprintf "c%d:" (int_of_n s));
-            List.iter (fun d -> Buffer.add_string b (di_str d)) ds
+            if net_mode then begin
+              let net : (string, string) Hashtbl.t = Hashtbl.create 16 in
+              List.iter (fun d ->
+                List.iter (fun p -> Hashtbl.replace net (path_str p) "-") d.di_removed;
+                List.iter (fun (p, vs) -> List.iter (fun v -> Hashtbl.replace net (path_str p) (payload_str v)) vs) d.di_sets) ds;
+              let ents = List.sort compare (Hashtbl.fold (fun k v acc -> (k, v) :: acc) net []) in
+              if ents <> [] then begin
+                if not !firstc then Buffer.add_char b ' ';
+                firstc := false;
+                Buffer.add_string b (Printf.sprintf "c%d:{%s}" (int_of_n s) (String.concat "," (List.map (fun (k, v) -> k ^ "=" ^ v) ents)))
+              end
+            end else begin
+              if not !firstc then Buffer.add_char b ' ';
+              firstc := false;
+              Buffer.add_string b (Printf.sprintf "c%d:" (int_of_n s));
+              List.iter (fun d -> Buffer.add_string b (di_str d)) ds
+            end
           end) (List.sort (fun (a, _) (b, _) -> compare (int_of_n a) (int_of_n b)) (w_last ops !w));
         Buffer.add_string b "} T{";
         let nodes = dfs dump_fuel (sv_tree ops sv) [] in
